@@ -5,6 +5,7 @@ import (
 	"fmt"
 	"runtime/debug"
 	"strconv"
+	"strings"
 	"testing"
 
 	"pgregory.net/rapid"
@@ -25,7 +26,31 @@ func RapidCheck(t *testing.T, n int, salt uint64, prop func(t *rapid.T)) {
 	_ = flag.Set("rapid.seed", strconv.FormatUint(SeedFor(salt), 10))
 	_ = flag.Set("rapid.nofailfile", "true")
 	_ = flag.Set("rapid.shrinktime", "8s")
-	rapid.Check(t, prop)
+	rapid.Check(t, func(rt *rapid.T) {
+		defer func() {
+			if r := recover(); r != nil {
+				if strings.HasPrefix(fmt.Sprintf("%T", r), "rapid.") {
+					panic(r) // rapid's own control flow (Fatalf, assumptions)
+				}
+				// a panic that escaped every oracle: report it rather than crash; if its stack
+				// runs through pion/rtcp it is the code under test that panicked
+				WriteFailIfNone("uncaught-panic", map[string]string{"note": "not replayable: the panic happened outside an oracle; see message"},
+					fmt.Sprintf("PANIC outside an oracle: %v\n%s", r, trimStack(debug.Stack())))
+				panic(r)
+			}
+		}()
+		prop(rt)
+	})
+}
+
+// Uncaught is deferred at the top of every TestCxx: a panic in an enumeration loop becomes a
+// reported failure (with a replay file holding the stack) instead of a dead worker.
+func Uncaught(t *testing.T) {
+	if r := recover(); r != nil {
+		WriteFailIfNone("uncaught-panic", map[string]string{"note": "not replayable: the panic happened outside an oracle; see message"},
+			fmt.Sprintf("PANIC outside an oracle: %v\n%s", r, trimStack(debug.Stack())))
+		t.Fatalf("uncaught panic: %v", r)
+	}
 }
 
 // Guard runs f and converts a panic into an error (with the stack), so that a panic inside
